@@ -336,9 +336,28 @@ def replay(args):
     for f in other:
         print(f"  also fails {f[0]}: {f[1]}")
     out = {"reproduced": bool(hit), "failed_clauses": [f[0] for f in fails], "outcome": outcome}
+    # a model whose strings only carry uninterpreted values (ufn) cannot be rebuilt as real
+    # text: the native call then dies on the placeholder, which reproduces nothing
+    if want.startswith("post:") and isinstance(outcome, dict) and outcome.get("raised") and str(rp.get("model_raised")) in ("None", "") and "smt2" in rp and "declare-fun" in rp["smt2"] and any(isinstance(v, str) and v.startswith("!") for v in _strings(rp["args"])):
+        print("  note: the model's strings stand for uninterpreted values and are not real text; the native run raised on them -- not a reproduction")
+        out["reproduced"] = False
+        if args.json:
+            json.dump(out, open(args.json, "w"), default=repr)
+        return 2
     if args.json:
         json.dump(out, open(args.json, "w"), default=repr)
     return 1 if fails else 0
+
+
+def _strings(j):
+    if isinstance(j, str):
+        yield j
+    elif isinstance(j, dict):
+        for v in j.values():
+            yield from _strings(v)
+    elif isinstance(j, (list, tuple)):
+        for v in j:
+            yield from _strings(v)
 
 
 def main():
